@@ -174,9 +174,12 @@ C07Raw(sn, calls) ==
 
 (* C14 - Parallel policy                                                               *)
 FaultFree(calls) == \A k \in Idx(calls) : OK(calls[k])
+\* "absent API errors": no call failed, and the reconcile had no other ground to give up (the set it was asked to adopt
+\* for is gone or re-created, a revision of a migration is still in transit) - then it must succeed and do all of it
 C14Raw(sn, calls, res) ==
   (sn.set.policy = "Parallel" /\ ~sn.set.deleting /\ ~sn.set.paused /\ sn.set.cached /\ sn.set.selectorOK
-     /\ FaultFree(calls) /\ res = "ok") =>
+     /\ FaultFree(calls) /\ sn.fresh.exists /\ sn.fresh.sameUid /\ ~sn.fresh.deleting /\ ~InTransit(sn.revs)) =>
+    /\ res = "ok"
     /\ {Ints(calls[k])[1] : k \in {j \in Idx(calls) : IsPodCreate(calls[j])}}
           = {i \in D(sn) : PartAt(sn, i) = {} \/ \A p \in PartAt(sn, i) : DeadP(p)}
     /\ {Name(calls[k]) : k \in {j \in Idx(calls) : IsPodDelete(calls[j]) /\ IsCondemnedDelete(sn, calls, j)}}
